@@ -48,6 +48,22 @@ def make(variant, *targets, extra=None):
         lock.close()
 
 
+def make_with_fallback(variant, name):
+    """Builds harness <name>; if that fails (typically because a refactoring of the library's private members broke the harness's
+    private-state access) builds <name>_np, the variant compiled with -DVERIF_NO_PRIVATE that uses the public API only.
+    Returns (binary name, private_state_available)."""
+    try:
+        make(variant, name)
+        return name, True
+    except MachineryError as first:
+        try:
+            make(variant, name + "_np")
+        except MachineryError:
+            raise first
+        log("NOTE harness %s does not compile against this tree with private-state access; using the public-API-only variant %s_np (stages that need private state are skipped)" % (name, name))
+        return name + "_np", False
+
+
 def binpath(variant, name):
     return os.path.join(BUILD, variant, "bin", name)
 
